@@ -217,6 +217,11 @@ pub fn install(s: &AState) {
     let mut db = EMPTY_DB;
     db.t[0].created = true;
     db.t[1].created = true;
+    // the state is a database CREATED BY THE CURRENT SOURCE: its constraints and indexes apply
+    db.t[0].cons = rusqlite::CUR_CONS[0];
+    db.t[1].cons = rusqlite::CUR_CONS[1];
+    db.t[0].idx = rusqlite::CUR_INDEXES[0];
+    db.t[1].idx = rusqlite::CUR_INDEXES[1];
     let mut k = 0;
     if s.c.exists {
         db.t[0].used[k] = true;
